@@ -179,6 +179,17 @@ CLAIMED = {
              'known findings: the commented-out header of virtiofsd, the packagekitd re-indentation.',
         technique='Lean 4 proof (line locality and no-match identity of the rewriting tasks) + distance-one diffs of real builds with per-axis classification',
         ref='8/C18'),
+    'C01': dict(
+        text='Partial by design: the Lean theorems are structural and hold for every text — the literal build tasks (hotfix, fsp, abi3; '
+             'regenerated lists) keep the line structure (same lines, each rewritten alone), and after abi3 no `  userns,` / `  mqueue` '
+             'rule start is left, alone or in the chain. Acceptance itself (parses, includes and variables resolve, rules merge) is '
+             'decided by the reference parser: every configuration of the tier is built with the real prebuild, overlaid on the '
+             'installed reference policy, and every top-level file is loaded with apparmor_parser -Q -K -d.',
+        note='Trusted: Lean kernel for the structural theorems; apparmor_parser 3.0.8 as the reference parser (AppArmor-4-only rule kinds '
+             'commented out in the overlay for ABI 4, abi/4.0 = copy of abi/3.0, files upstreamed in 4.1 taken from the source tree); '
+             'acceptance is validated per configuration, not proved; quick tier covers 7 of the 180 configurations, thorough all.',
+        technique='Lean 4 proof of structural preservation + reference parser run on every file of real builds of the configuration matrix',
+        ref='8/C01'),
 }
 
 REASON_TODO = 'check not built yet in this round; no claim is made (see DESIGN.md section 13)'
